@@ -35,6 +35,7 @@ from ..core import Ctx, HarnessError, Report, Violation, jhash, mix32
 from ..gen_state import Stream
 from .. import rsclient
 from . import c13_machine as M
+from . import c13_live as L
 
 PROPERTY = "C13"
 RULE = ("histories over (mti, sti, enabled): all period pairs in {0..12}^2 (complete, both tiers) plus sampled "
@@ -73,6 +74,17 @@ RULE = ("histories over (mti, sti, enabled): all period pairs in {0..12}^2 (comp
         "ONE PCE500Emulator.run(n) / CoreRuntime::step(n) call per chunk; at the end of every call cycle counter, next "
         "targets, ISR bits 0/1 and (PCE500Emulator) the cycles at which the scheduler reported firings are compared with "
         "the single-stepped execution of the same implementation. "
+        "Host life-cycle layer (round 5, c13_live.py): per pair (quick 2 + 1, thorough 24 + 6) and for larger periods "
+        "(a) 'async' cases -- the public device task AsyncTimerKeyboardTask::run / run_for spawned on an AsyncDriver "
+        "that is advanced in slices of 1..2*period cycles, the host acting on the shared CoreRuntime between slices: "
+        "ISR acknowledgements, timer.reset(now), period reprogramming + reset, same-point snapshot round trips and "
+        "restores of earlier snapshot_info()s (targets nearer than / behind the ones the task last saw); after every "
+        "slice next targets and ISR bits 0/1 must be where per-cycle ticking leaves them; (b) 'rollback' cases -- a "
+        "PCE500Emulator ticked through _tick_timers() whose state is captured with the real save_snapshot, which keeps "
+        "running (timers fire, bits acknowledged or left pending) and is later rolled back with the real load_snapshot "
+        "into the same used instance (1 of 5: a fresh one), the snapshot file loaded as written, without the metadata "
+        "entries the Rust core does not write, or without a generated subset of the entries load_snapshot treats as "
+        "optional; non-trivial = >= 2 fires and a re-arm / a fire after the rollback. "
         "Non-trivial = some active timer crosses >= 2 boundaries in the history, or a tick lands exactly on a "
         "boundary, or one gap skips > 1 period (machine layer: >= 2 target movements); distinct = (mti, sti, "
         "enabled, hash of the op list / program+step schedule).")
@@ -1390,8 +1402,28 @@ def _machine_shard(task: Tuple[int, str, List[Tuple[Any, ...]]]) -> Report:
     return rep
 
 
+def _live_shard(task: Tuple[int, str, List[Tuple[Any, ...]]]) -> Report:
+    """Round 5: host life-cycle layer (c13_live.py)."""
+    seed, tier, configs = task
+    rep = Report()
+    cases = [L.gen_from_config(seed, cfg) for cfg in configs]
+    n = 0
+    for i in range(0, len(cases), 64):
+        chunk = cases[i:i + 64]
+        for case, (vs, facts) in zip(chunk, L.evaluate_live(chunk)):
+            for v in vs:
+                rep.violate(v)
+            n += 1
+            sample = case if (n % 37 == 3 and len(case["ops"]) <= 45) else None
+            rep.case(L.nontrivial_key(case, facts), L.labels(case, facts), sample)
+            rep.extra["live_ticks"] = rep.extra.get("live_ticks", 0) + facts.get("ticks", 0)
+    return rep
+
+
 def _any_shard(task: Tuple[str, Any]) -> Report:
     kind, payload = task
+    if kind == "live":
+        return _live_shard(payload)
     return _shard(payload) if kind == "core" else _machine_shard(payload)
 
 
@@ -1402,15 +1434,21 @@ def run(ctx: Ctx) -> Report:
     mconfigs = M.plan(ctx.seed, ctx.tier)
     nshards = 16 if ctx.quick else 64
     nm = 16 if ctx.quick else 64
+    lconfigs = L.plan(ctx.seed, ctx.tier)
+    nlive = 16 if ctx.quick else 64
     tasks: List[Tuple[str, Any]] = []
     for i in range(max(nshards, nm)):     # interleave so both layers spread over the pool
         if i < nshards:
             tasks.append(("core", (ctx.seed, ctx.tier, configs[i::nshards])))
         if i < nm:
             tasks.append(("machine", (ctx.seed, ctx.tier, mconfigs[i::nm])))
+        if i < nlive:
+            tasks.append(("live", (ctx.seed, ctx.tier, lconfigs[i::nlive])))
     rep = ctx.merge_reports(ctx.pmap(_any_shard, tasks))
     rep.rule = RULE
-    rep.assumptions = list(ASSUMPTIONS)
+    rep.assumptions = list(ASSUMPTIONS) + list(L.ASSUMPTIONS)
+    rep.extra["live_cases_planned"] = {"async": sum(1 for c in lconfigs if c[0] == "async"),
+                                       "rollback": sum(1 for c in lconfigs if c[0] == "rollback")}
     rep.extra["small_period_pairs_covered"] = len({(c[0], c[1]) for c in configs if c[0] <= 12 and c[1] <= 12})
     plain = [c for c in mconfigs if not isinstance(c[0], str)]
     irqc = [c[1:] for c in mconfigs if c[0] == "irq"]
@@ -1429,6 +1467,8 @@ def replay(ctx: Ctx, case: Dict[str, Any]) -> List[Violation]:
     rsclient.build()
     if case.get("layer") == "machine":
         return M.evaluate_machine([case])[0][0]
+    if case.get("layer") == "live":
+        return L.evaluate_live([case])[0][0]
     vs, _ = evaluate([case])[0]
     return vs
 
@@ -1452,6 +1492,50 @@ def shrink(ctx: Ctx, v: Violation) -> Violation:
                 hi, best = mid, hit[0]
             else:
                 lo = mid + 1
+        return best
+
+    if v.case.get("layer") == "live":
+        # truncate after the failing op (ops of a live case are self-contained prefixes), then drop single ops
+        # that do not feed a later one (captures stay)
+        ops = list(v.case["ops"])
+
+        def lprobe(cand: List[List[Any]]) -> Optional[Violation]:
+            have = set()
+            for o in cand:
+                if o[0] == "c":
+                    have.add(int(o[1]))
+                elif o[0] == "L" and int(o[1]) not in have:
+                    return None
+            if v.case.get("flavour") == "async":
+                cyc = [int(o[1]) for o in cand if o[0] == "a"]
+                if any(b <= a for a, b in zip(cyc, cyc[1:])):
+                    return None
+            c2 = dict(v.case)
+            c2["ops"] = cand
+            if c2.get("entry") == "run_for":
+                c2["run_for_cycles"] = max([int(o[1]) for o in cand if o[0] == "a"] or [0])
+            for w in L.evaluate_live([c2])[0][0]:
+                if w.key() == key:
+                    return w
+            return None
+
+        lo, hi = 1, len(ops)
+        while lo < hi and time.time() - t0 < 30:
+            mid = (lo + hi) // 2
+            w = lprobe(ops[:mid])
+            if w is not None:
+                hi, best = mid, w
+            else:
+                lo = mid + 1
+        ops = list(best.case["ops"])
+        i = 0
+        while i < len(ops) and time.time() - t0 < 50:
+            cand = ops[:i] + ops[i + 1:]
+            w = lprobe(cand) if cand else None
+            if w is not None:
+                ops, best = cand, w
+            else:
+                i += 1
         return best
 
     def probe(ops: List[List[Any]]) -> Optional[Violation]:
